@@ -111,6 +111,29 @@ R3 = {
          "Also decides that neighbouring exons are rejected exactly when start < previous end (half-open overlap), neither one base later nor earlier."),
 }
 
+# Clauses added after the fourth round (DESIGN.md §10.3).
+R4 = {
+ "C01": "both FASTQ header lines come from the same routine",
+ "C02": "normal form of start/end sanity tests in the text coordinate space; no default-limit bufio.Scanner in the readers",
+ "C03": "call-graph cover of explicit panics by a deferred converter from Reader.Read; exact interval analysis of byte-derived subscripts of fixed-size tables",
+ "C04": "no default-limit bufio.Scanner in the readers",
+ "C06": "parallel-index rule (two slices indexed by one counter have provably equal length)",
+ "C07": "path evidence for both ends in IsFlush; watermark exit test of the prefix-doubling fill loops",
+ "C08": "DP table freshly zeroed; running-maximum choice of the traceback start layer",
+ "C09": "block emission independent of the accumulated score; DP table freshly zeroed",
+ "C10": "no exported method returns an internal table; difference-constraint proof that the first reported position is >= start; lock-step linear relation between reported position and last letter read",
+ "C11": "error-slot discipline as C13",
+ "C12": "pool drain in Clear as C11",
+ "C13": "join-then-consult ordering as C12; any buffered writer layer's errors",
+ "C14": "symbolic linear forms of the retired diagonal (q - MaxError), of the final flush range (from Qlen - k) and of the tube ring size",
+ "C15": "normal form of the self-comparison guard; field-role wiring of dp.NewAligner's arguments",
+ "C16": "field coverage of a canonical-orientation ordering; insertion on every path of merge",
+ "C17": "method form reads the unflagged tables; index table cleared on every constructor path",
+ "C18": "analytic pair of the two conversion tables; fill/lookup shift agreement of the score tables; own-scale decode in seq/quality; helper-method offsets evaluated per encoding",
+ "C19": "WaitGroup.Add dominates every go statement whose goroutine calls Done",
+ "C20": "exact zero-start test; query methods write no receiver state",
+}
+
 NOT_APPLICABLE = {
 }
 
@@ -125,6 +148,10 @@ def main():
                 tech = tech + "; " + R3[pid][0]
                 text = text + " " + R3[pid][1]
                 ref = ref + "; Part II §10.2"
+            if pid in R4:
+                tech = tech + "; " + R4[pid]
+                text = text + " Round 4 (DESIGN §10.3) adds: " + R4[pid] + "."
+                ref = ref + ", §10.3"
             checks.append({
                 "property_id": pid,
                 "quick_cmd": "./check %s quick" % pid,
